@@ -619,7 +619,63 @@ def w_explain(failure, tier):
     return dict(found=False, note='explain flag: %d request pairs (explain off/on) agree in hits, order and scores; every final_score equals its hit score' % n)
 
 
+# ---------------------------------------------------------------- U12 / U16 pruned vs exhaustive execution
+def w_pruned(failure, tier):
+    """wand and bmw must return the same hits, order and scores as the exhaustive bm25 strategy, incl. adjusted scores <= 0"""
+    docs = []
+    for i in range(24):
+        n = 24 if i < 16 else 2
+        body = ' '.join(['alpha'] + ['pad%d' % (j % 5) for j in range(n - 1)]) + (' beta' if i % 3 == 0 else '')
+        docs.append({"_id": "d%02d" % i, "body": body, "delta": float([1, 0, -1, -2, -3][i % 5])})
+    add = {"numeric_fields": [{"name": "delta", "i64": False, "fast": True, "stored": True}]}
+    base_q = {"type": "term", "field": "body", "value": "alpha"}
+    queries = [
+        "alpha", "alpha beta",
+        {"type": "function_score", "query": base_q, "functions": [{"type": "field_value_factor", "field": "delta", "factor": 1.0}], "score_mode": "sum", "boost_mode": "multiply"},
+        {"type": "script_score", "query": base_q, "script": "_score * delta", "boost": 1.0},
+        {"type": "bool", "should": [{"type": "term", "field": "body", "value": "alpha", "boost": 2.0}, {"type": "term", "field": "body", "value": "beta"}]},
+    ]
+    reqs = []
+    meta = []
+    for q in queries:
+        for limit in (1, 3, 5, 9, 30):
+            for ex, bs in (("bm25", None), ("wand", None), ("bmw", None), ("bmw", 3)):
+                r = dict(REQ_BASE, query=q, limit=limit, execution=ex)
+                if bs:
+                    r["bmw_block_size"] = bs
+                reqs.append(r)
+                meta.append((q, limit, ex, bs))
+    out, err = drive_search({"schema": None, "schema_add": add, "batches": [docs[:10], docs[10:]], "requests": reqs})
+    if out is None:
+        return dict(found=False, note='search driver failed: %s' % err)
+    n = 0
+    for i in range(0, len(reqs), 4):
+        base = out[i]
+        if 'ok' not in base:
+            continue
+        want = [(h['doc_id'], round(h['score'], 4)) for h in base['ok']['hits']]
+        for j in (1, 2, 3):
+            o = out[i + j]
+            q, limit, ex, bs = meta[i + j]
+            if 'panic' in o:
+                return dict(found=True, cmd='%s search' % BIN, input='query %s, %s' % (_json.dumps(q), ex), observed='PANIC ' + o['panic'][:200], expected='hits')
+            if 'ok' not in o:
+                continue
+            got = [(h['doc_id'], round(h['score'], 4)) for h in o['ok']['hits']]
+            n += 1
+            if got != want:
+                return dict(found=True, cmd='%s search <<< hex(json)' % BIN,
+                            input='24 documents in 2 segments (16 long, 8 short); query %s, limit %d, execution %s%s vs bm25' % (_json.dumps(q), limit, ex, (' block %d' % bs) if bs else ''),
+                            observed='%s returns %s' % (ex, got[:6]), expected='the exhaustive bm25 result %s' % want[:6])
+    return dict(found=False, note='pruned vs exhaustive: %d (query, limit, strategy) comparisons agree with bm25' % n)
+
+
 GENERATORS = {
+    ('U16', 'admission'): w_pruned,
+    ('U16', 'push_top_k'): w_pruned,
+    ('U12', 'advance_to'): w_pruned,
+    ('U12', 'skip_to_block'): w_pruned,
+    ('U12', 'build_block_meta'): w_pruned,
     ('U13', 'function_values_and_base'): w_explain,
     ('U13', 'explain_fill'): w_explain,
     ('U13', 'rescore_update'): w_explain,
